@@ -79,6 +79,18 @@ func c15Alerts() []c15Al {
 			}
 			return l
 		}},
+		// a second group under the same muting route: its flushes have another phase, so right after a boundary one
+		// group of the route is muted and the other is not
+		{"M2", map[string]string{"alertname": "M2", "t": "m"}, "r2", func(t time.Duration) []string {
+			var l []string
+			if in(c15w1, t) {
+				l = append(l, "w1")
+			}
+			if in(c15w2, t) {
+				l = append(l, "w2")
+			}
+			return l
+		}},
 		{"A", map[string]string{"alertname": "A", "t": "a"}, "r3", func(t time.Duration) []string {
 			if in(c15w2, t) {
 				return nil
